@@ -666,6 +666,9 @@ func (s *Subscription) processCollectionEvent(event *rescache.ResourceEvent) {
 		if verifhook.Enabled && len(s.refs) > 0 {
 			verifhook.Site("delete.refs", s.c.CID(), s.rid)
 		}
+		if verifhook.Enabled && s.indirect > 0 {
+			verifhook.Site("delete.referenced", s.c.CID(), s.rid)
+		}
 		s.state = stateDeleted
 		s.c.Send(rpc.NewEvent(s.rid, event.Event, event.Payload))
 		s.unsubscribeDirect(reserr.ErrDeleted)
@@ -762,6 +765,9 @@ func (s *Subscription) processModelEvent(event *rescache.ResourceEvent) {
 	case "delete":
 		if verifhook.Enabled && len(s.refs) > 0 {
 			verifhook.Site("delete.refs", s.c.CID(), s.rid)
+		}
+		if verifhook.Enabled && s.indirect > 0 {
+			verifhook.Site("delete.referenced", s.c.CID(), s.rid)
 		}
 		s.state = stateDeleted
 		s.c.Send(rpc.NewEvent(s.rid, event.Event, event.Payload))
